@@ -349,6 +349,43 @@ theorem canon_order_exact {n : ℕ} (B : Matrix (Fin n) (Fin n) ℝ) (i j : Fin 
   have : X = Xᵀᵀ := (transpose_transpose X).symm
   rw [this, h1, transpose_one]
 
+
+/-- the statement of the property for the canonical (Tits) representation of a Coxeter matrix, with
+the real cosine: generators are involutions and `sᵢsⱼ` has order **exactly** `M_ij` for every finite
+label -/
+theorem canonical_representation_real {n : ℕ} (M : Matrix (Fin n) (Fin n) ℤ) (hM : Mᵀ = M)
+    (hd : ∀ i, M i i = 1) :
+    let B := cosineForm (fun x : ℚ => Real.cos (Real.pi / (x : ℝ))) M
+    (∀ i, canonRep B i * canonRep B i = 1) ∧
+    (∀ i j, i ≠ j → 2 ≤ M i j → (canonRep B i * canonRep B j) ^ (M i j).toNat = 1 ∧
+      ∀ k, 0 < k → k < (M i j).toNat → (canonRep B i * canonRep B j) ^ k ≠ 1) := by
+  intro B
+  have h1 : (fun x : ℚ => Real.cos (Real.pi / (x : ℝ))) 1 = -1 := by simp
+  obtain ⟨hs, hdiag⟩ : Bᵀ = B ∧ ∀ i, B i i = 1 :=
+    cosineForm_symm_diag (R := ℝ) (fun x : ℚ => Real.cos (Real.pi / (x : ℝ))) M hM hd h1
+  have hBij : ∀ a b, 2 ≤ M a b → B a b = -Real.cos (Real.pi / ((M a b).toNat : ℝ)) := by
+    intro a b hab
+    have h0 : ¬ M a b ≤ 0 := by omega
+    have hc : ((M a b).toNat : ℝ) = ((M a b : ℚ) : ℝ) := by
+      have : ((M a b).toNat : ℤ) = M a b := Int.toNat_of_nonneg (by omega)
+      rw [Rat.cast_intCast]
+      exact_mod_cast this
+    show cosineForm _ M a b = _
+    simp only [cosineForm, h0, if_false, hc]
+    ring
+  refine ⟨fun i => ?_, fun i j hij hm => ?_⟩
+  · rw [canonRep_eq_transpose B i (hdiag i), ← transpose_mul, geomRep_sq B i (hdiag i), transpose_one]
+  · have hji : M j i = M i j := congrFun (congrFun hM i) j
+    have hm2 : 2 ≤ (M i j).toNat := by omega
+    apply canon_order_exact B i j hij (hdiag i) (hdiag j) _ hm2
+    · rw [hBij i j hm, hBij j i (by rw [hji]; exact hm), hji]; ring
+    · intro h
+      rw [hBij i j hm, hBij j i (by rw [hji]; exact hm), hji, h]
+      have : Real.cos (Real.pi / ((2 : ℕ) : ℝ)) = 0 := by
+        have : Real.pi / ((2 : ℕ) : ℝ) = Real.pi / 2 := by norm_num
+        rw [this, Real.cos_pi_div_two]
+      rw [this]; simp
+
 /-- **triangle angles.**  For the cosine form `B = form3 a b c` of a triangle group, let `ω_k` be the
 vertex fixed by `sᵢ` and `sⱼ` (hence by the rotation `sᵢsⱼ`), and `u, w` the directions at `ω_k`
 towards the other two vertices.  Then `B(u,w) = -B_ij · B(u,u)`, `B(w,w) = B(u,u) = det(B)⁴(1-B_ij²)`
